@@ -315,7 +315,7 @@ func extractFacts(repo string) (string, error) {
 
 	// 4b. how the waits of the admission policies report a cancellation: the bulkhead executor, on an error of its wait that is
 	// not ErrFull, returns the execution's cancel result (IsCanceledWithResult); the rate limiter's wait, woken by
-	// exec.Canceled(), returns exec.LastError() (which Cancel stored under the execution's mutex)
+	// exec.Canceled(), returns the error of the execution's cancel result
 	bhReports := false
 	if fd := fx.fn("bulkhead/bulkheadexecutor.go", "executor", "PreExecute"); fd != nil {
 		ast.Inspect(fd.Body, func(n ast.Node) bool {
@@ -339,16 +339,21 @@ func extractFacts(repo string) (string, error) {
 	if fd := fx.fn("ratelimiter/ratelimiter.go", "rateLimiter", "acquirePermitsWithMaxWait"); fd != nil {
 		ast.Inspect(fd.Body, func(n ast.Node) bool {
 			if cc, ok := n.(*ast.CommClause); ok && cc.Comm != nil && strings.Contains(srcOf(cc.Comm), "exec.Canceled()") {
-				for _, st := range cc.Body {
-					if rs, ok := st.(*ast.ReturnStmt); ok && len(rs.Results) == 1 && srcOf(rs.Results[0]) == "exec.LastError()" {
-						rlReports = true
+				ast.Inspect(cc, func(m ast.Node) bool {
+					if inner, ok := m.(*ast.IfStmt); ok && inner.Init != nil && strings.Contains(srcOf(inner.Init), ".IsCanceledWithResult()") {
+						for _, st := range inner.Body.List {
+							if rs, ok := st.(*ast.ReturnStmt); ok && len(rs.Results) == 1 && srcOf(rs.Results[0]) == "cancelResult.Error" {
+								rlReports = true
+							}
+						}
 					}
-				}
+					return true
+				})
 			}
 			return true
 		})
 	}
-	facts["limiterWaitReportsLastError"] = rlReports
+	facts["limiterWaitReportsCancelResult"] = rlReports
 
 	// 5. goroutine / timer spawn sites in non-test library code (file:function, no line numbers)
 	sites := []string{}
@@ -754,8 +759,8 @@ func extractFacts(repo string) (string, error) {
 	sb.WriteString(fmt.Sprintf("def rootHasCancelFunc : Bool := %v\n\n", has))
 	sb.WriteString("/-- the bulkhead executor returns the execution's cancel result when its wait ends with an error other than ErrFull -/\n")
 	sb.WriteString(fmt.Sprintf("def bulkheadWaitReportsCancelResult : Bool := %v\n\n", bhReports))
-	sb.WriteString("/-- the rate limiter's wait inside an execution, woken by exec.Canceled(), returns exec.LastError() -/\n")
-	sb.WriteString(fmt.Sprintf("def limiterWaitReportsLastError : Bool := %v\n\n", rlReports))
+	sb.WriteString("/-- the rate limiter's wait inside an execution, woken by exec.Canceled(), returns the error of the execution's cancel result -/\n")
+	sb.WriteString(fmt.Sprintf("def limiterWaitReportsCancelResult : Bool := %v\n\n", rlReports))
 	sb.WriteString("/-- capacity of the hedge executor's result channel (-1 = not found) -/\n")
 	sb.WriteString(fmt.Sprintf("def hedgeChanCap : Int := %d\n\n", hedgeCap))
 	sb.WriteString("/-- goroutine and timer spawn sites of the library (kind file:receiver.function) -/\n")
